@@ -316,8 +316,8 @@ fn run(args: &Args) {
 
     let gc_heavy = property == "C03";
     let cases = match property {
-        "C01" => args.tier.pick(60_000, 1_500_000),
-        "C02" => args.tier.pick(60_000, 1_500_000),
+        "C01" => args.tier.pick(400_000, 3_000_000),
+        "C02" => args.tier.pick(300_000, 3_000_000),
         _ => args.tier.pick(60_000, 1_200_000),
     };
     // a fixed worker count: the generated set is a function of (seed, tier) only, not of the
